@@ -473,6 +473,8 @@ class Engine:
         cur_env = fr.env
         fr.env = dict(cur_env)
         fr.env.update(ctx.entry_env)
+        if "result" in fr.env and "result" not in ctx.entry_env:
+            del fr.env["result"]        # a LOCAL named `result` must not shadow the value handed back, which is what clauses mean by it
         try:
             for lbl, e in ct.lets.items():          # abbreviations over the entry state are usable in raises conditions
                 if "result" not in e:
